@@ -92,6 +92,7 @@ Section Inv5.
   Notation St_synced := (St_synced c s0 sched).
   Notation St_ready := (St_ready c s0 sched).
   Notation St_done := (St_done c new).
+  Notation St_bclosed := (St_bclosed c s0 sched).
   Notation scan_tr := (scan_tr c).
   Notation LT := (LT c sched).
   Notation stageT := (N -> fs -> fstate -> list (ev * option nat) -> Prop).
@@ -622,17 +623,42 @@ Section Inv5.
   Lemma open_wf acc s f sc : St_open acc s f sc -> wf s.
   Proof. intro H. apply H. Qed.
 
+  Lemma bclosed_wf s f sc : St_bclosed s f sc -> wf s.
+  Proof. intros (H & _). apply H. Qed.
+
+  (* the body closed the file: every further operation on it fails or is a no-op *)
+  Lemma tr5_closed G e forced :
+    closed_ev e ->
+    triple (LT (Y_ours St_bclosed G)) (prim_f e forced) (fun _ => LT (Y_ours St_bclosed G)) EM CT.
+  Proof.
+    intro He. apply tr5_file.
+    - destruct e; cbn in He; try contradiction; exact I.
+    - apply bclosed_stable; auto.
+    - apply bclosed_wf.
+    - apply bclosed_any.
+    - apply sem_closed; auto.
+  Qed.
+
+  Lemma run_body5_closed G ops :
+    triple (LT (Y_ours St_bclosed G)) (run_body ops) (fun _ => LT (Y_ours St_bclosed G)) EM CT.
+  Proof.
+    induction ops as [|o r IH]; cbn [run_body]; [apply t_ret; auto|].
+    destruct o; (eapply t_bind; [apply tr5_closed; exact I|]; intros ?; cbv beta; exact IH).
+  Qed.
+
+  Definition BodyPost5 G (acc : bytes) : unit -> world -> Prop :=
+    fun _ w => LT (Y_ours (St_open acc) G) w \/ LT (Y_ours St_bclosed G) w.
+
   Lemma run_body5 G ops : forall acc,
-    triple (LT (Y_ours (St_open acc) G)) (run_body ops)
-           (fun _ => LT (Y_ours (St_open (acc ++ new_content ops)) G)) EM CT.
+    triple (LT (Y_ours (St_open acc) G)) (run_body ops) (BodyPost5 G (acc ++ new_content ops)) EM CT.
   Proof.
     induction ops as [|o r IH]; intro acc; cbn [run_body].
-    - apply t_ret. intros w H. cbn. rewrite app_nil_r. exact H.
-    - destruct o as [d k|].
+    - apply t_ret. intros w H. left. cbn. rewrite app_nil_r. exact H.
+    - destruct o as [d k| |].
       + eapply t_bind.
         * apply tr5_file; [exact I|apply open_stable; auto|apply open_wf|apply open_any|apply sem_write; auto].
         * intros ?; cbv beta. eapply t_conseq; [apply (IH (acc ++ d))|idc| |idc|idc].
-          intros ? w H. cbn [new_content flat_map]. fold (new_content r). rewrite app_assoc. exact H.
+          intros ? w H. unfold BodyPost5 in *. cbn [new_content flat_map]. fold (new_content r). rewrite app_assoc. exact H.
       + eapply t_bind with (Q := fun _ => LT (Y_ours (St_open acc) G)).
         * eapply t_conseq;
             [apply (tr5_file (St_open acc) (St_flushed acc) G EFlush None I);
@@ -641,16 +667,20 @@ Section Inv5.
           intros ? w ((Hu & HP & HR) & R). split; [|exact R]. split; [auto|]. split; [|exact HR].
           apply flushed_open. exact HP.
         * intros ?; cbv beta. eapply t_conseq; [apply (IH acc)|idc| |idc|idc].
-          intros ? w H. cbn [new_content flat_map]. exact H.
+          intros ? w H. unfold BodyPost5 in *. cbn [new_content flat_map]. exact H.
+      + eapply t_bind.
+        * apply (tr5_file (St_open acc) St_bclosed G EClose None I);
+            [apply open_stable; auto|apply open_wf|apply open_any|apply sem_bclose; auto].
+        * intros ?; cbv beta. eapply t_conseq; [apply (run_body5_closed G r)|idc| |idc|idc].
+          intros ? w H. right. exact H.
   Qed.
 
   Lemma body5 G ops raises :
-    triple (LT (Y_ours (St_open []) G)) (body ops raises)
-           (fun _ => LT (Y_ours (St_open (new_content ops)) G)) EM CT.
+    triple (LT (Y_ours (St_open []) G)) (body ops raises) (BodyPost5 G (new_content ops)) EM CT.
   Proof.
     unfold body. eapply t_bind; [apply (run_body5 G ops [])|]. intros ?; cbv beta.
     destruct raises.
-    - apply t_raise. intros w H. eapply ours_mid; [|exact H]. apply open_any.
+    - apply t_raise. intros w [H|H]; (eapply ours_mid; [|exact H]); [apply open_any|apply bclosed_any].
     - apply t_ret. auto.
   Qed.
 
@@ -718,6 +748,32 @@ Section Inv5.
       apply cleanup_raise5.
   Qed.
 
+  Lemma exit_false5_closed G :
+    triple (LT (Y_ours St_bclosed G)) (exit_ c false) (fun _ => LT (Y_done G)) EF CT.
+  Proof.
+    unfold exit_. apply t_getfile. intro f.
+    eapply t_bind with (Q := fun _ _ => False); [|intros ?; cbv beta; apply t_false].
+    assert (H : triple (LT (Y_ours St_bclosed G))
+                  (catch (prim EFlush;;; prim EFsync;;; prim EClose)
+                         (fun e => catch (prim EClose) (fun _ => ret tt);;; rm_part_file c;;; raise e))
+                  (fun _ _ => False) EF CT).
+    { eapply t_catch with (E' := EM); [|intro e; apply sync_handler5].
+      eapply t_bind with (Q := fun _ _ => False); [|intros ?; cbv beta; apply t_false].
+      eapply t_conseq.
+      - apply (tr5_file St_bclosed (fun _ _ _ => False) G EFlush None I);
+          [apply bclosed_stable; auto|apply bclosed_wf|apply bclosed_any|].
+        intros um s f0 sc (Ha & ->). cbn. exact Ha.
+      - idc.
+      - intros ? w ((_ & HF & _) & _). exact HF.
+      - idc.
+      - idc. }
+    destruct f.
+    - eapply t_conseq; [apply (t_false (ret tt) (fun _ _ => False) EF CT)| |idc|idc|idc].
+      intros w (((_ & (_ & Hf) & _) & _) & Hfile). congruence.
+    - eapply t_conseq; [exact H|tauto|idc|idc|idc].
+    - eapply t_conseq; [exact H|tauto|idc|idc|idc].
+  Qed.
+
   Lemma save5 ops raises :
     new = new_content ops ->
     triple (LT Y_start) (save c ops raises) (fun _ => LT (Y_done perms_ok_prop)) EF CT.
@@ -725,7 +781,9 @@ Section Inv5.
     intro Hn. unfold save. eapply t_bind; [apply setup5|]. intros ?; cbv beta.
     intros w Hw. pose proof (body5 perms_ok_prop ops raises w Hw) as Hb.
     destruct (body ops raises w) as [[x|e|] w'].
-    - apply exit_false5. rewrite Hn. exact Hb.
+    - destruct Hb as [Hb|Hb].
+      + apply exit_false5. rewrite Hn. exact Hb.
+      + apply exit_false5_closed. exact Hb.
     - assert (T : triple (LT Y_mid) (exit_ c true ;;; raise e) (fun _ : unit => LT (Y_done perms_ok_prop)) EF CT).
       { eapply t_bind; [apply exit_true5|]. intros ?; cbv beta. apply t_raise.
         intros w0 (((Hu & HS & (Ho & _) & Hof & Hg) & Hc) & R). split; [|exact R].
